@@ -352,6 +352,33 @@ Definition graft_one (h : heap) (i : nat) (old : nat * string * panel * list nat
       end
   end.
 
+(* (patched discipline only) value links that cross the merged node's boundary live in the parent's scope:
+   an output's receiver among the parent's channels is given to the fresh channel, a parent channel whose
+   receiver is the old channel is pointed at the fresh one (both through the value_receiver setter) *)
+Definition relink_one (h : heap) (i : nat) (old : nat * string * panel * list nat) : heap :=
+  match old with
+  | (orig, lab, p, _) =>
+      match find_chan h i p lab with
+      | None => h
+      | Some new =>
+          let par := n_parent (nd h i) in
+          let h1 := match c_recv (ch h orig), par with
+                    | Some r, Some pp => if Nat.eqb (c_owner (ch h r)) pp then set_receiver h new r else h
+                    | _, _ => h
+                    end in
+          match par with
+          | Some pp =>
+              if has_links (n_kind (nd h1 pp)) then
+                fold_left (fun h pc => match c_recv (ch h pc) with
+                                       | Some r => if Nat.eqb r orig then set_receiver h pc new else h
+                                       | None => h
+                                       end) (chans_of h1 pp PIn ++ chans_of h1 pp POut) h1
+              else h1
+          | None => h1
+          end
+      end
+  end.
+
 Definition merge_remote (mode : mmode) (h : heap) (i c2 : nat) : heap :=
   let n := nd h i in
   let local := map (fun c => (c, c_label (ch h c), c_panel (ch h c), c_conns (ch h c))) (n_chans n) in
@@ -382,7 +409,9 @@ Definition merge_remote (mode : mmode) (h : heap) (i c2 : nat) : heap :=
             end in
   match mode with
   | AsWritten => h7
-  | Repaired => fold_left (fun h c => setc h c (c_with_owner (ch h c) i)) (n_chans (nd h7 i)) h7
+  | Repaired =>
+      let h8 := fold_left (fun h c => setc h c (c_with_owner (ch h c) i)) (n_chans (nd h7 i)) h7 in
+      fold_left (fun h o => relink_one h i o) local h8
   end.
 
 (* ------------------------------------------------------------------ running (big step) *)
@@ -518,6 +547,61 @@ Section Cycle.
 
   Definition finish_ok (h : heap) : heap := emit_ran mode 4 h X.
 
+  (* the value a function node's copy computed on the far side *)
+  Definition copy_value (h : heap) (c1 : nat) : Z :=
+    match chans_of h c1 POut with
+    | c :: _ => match c_val (ch h c) with Some v => v | None => 0%Z end
+    | [] => 0%Z
+    end.
+
+  (* what the done-callback (Runnable._finish_run) does with a finished job, before any signal is emitted:
+     running := False; the result is processed (merge / outputs) or failed := True *)
+  Definition complete_job (h : heap) (j : job) : heap * bool :=
+    match j with
+    | JSame i =>
+        let (h1, r) := body mode RFUEL h i in
+        match r with
+        | ROk => (set_flags h1 i false false, true)
+        | _ => (set_flags h1 i false true, false)
+        end
+    | JPick i sd =>
+        let (h1, c1) := restore h sd in
+        let (h2, r) := body mode RFUEL h1 c1 in
+        match r with
+        | ROk =>
+            if is_comp (n_kind (nd h2 i)) then
+              match dump DFUEL h2 c1 with
+              | Some sd2 => let (h3, c2) := restore h2 sd2 in
+                            (merge_remote mode (set_flags h3 i false false) i c2, true)
+              | None => (set_flags h2 i false true, false)
+              end
+            else (set_outputs (set_flags h2 i false false) i (copy_value h2 c1), true)
+        | _ => (set_flags h2 i false true, false)
+        end
+    end.
+
+  (* Node.run() up to the submit *)
+  Definition submit (s : cst) : cst :=
+    let h := c_heap s in
+    match fetch h X with
+    | None => log s h (c_jobs s) "RuntimeError"
+    | Some h1 =>
+        let n := nd h1 X in
+        if n_running n || n_failed n || negb (inputs_ready h1 X) then log s h1 (c_jobs s) "ReadinessError"
+        else
+          let h2 := set_flags h1 X true false in
+          if has_exec (n_exec n) then
+            if crosses (n_exec n) then
+              match dump DFUEL h2 X with
+              | Some sd => log s h2 (c_jobs s ++ [JPick X sd]) "Future"
+              | None => log s h2 (c_jobs s) "ValueError"
+              end
+            else log s h2 (c_jobs s ++ [JSame X]) "Future"
+          else
+            let (h3, ok) := complete_job h2 (JSame X) in
+            if ok then log s (finish_ok h3) (c_jobs s) "value" else log s h3 (c_jobs s) "UserExc"
+    end.
+
   Definition step (s : cst) (o : op) : cst :=
     let h := c_heap s in
     match o with
@@ -530,54 +614,13 @@ Section Cycle.
                     end
         end
     | OClear => log s (set_flags h X (n_running (nd h X)) false) (c_jobs s) "ok"
-    | ORun =>
-        match fetch h X with
-        | None => log s h (c_jobs s) "RuntimeError"
-        | Some h1 =>
-            let n := nd h1 X in
-            if n_running n || n_failed n || negb (inputs_ready h1 X) then log s h1 (c_jobs s) "ReadinessError"
-            else
-              let h2 := set_flags h1 X true false in
-              if has_exec (n_exec n) then
-                if crosses (n_exec n) then
-                  match dump DFUEL h2 X with
-                  | Some sd => log s h2 (c_jobs s ++ [JPick X sd]) "Future"
-                  | None => log s h2 (c_jobs s) "ValueError"
-                  end
-                else log s h2 (c_jobs s ++ [JSame X]) "Future"
-              else
-                let (h3, r) := body mode RFUEL h2 X in
-                match r with
-                | ROk => log s (finish_ok (set_flags h3 X false false)) (c_jobs s) "value"
-                | _ => log s (set_flags h3 X false true) (c_jobs s) "UserExc"
-                end
-        end
+    | ORun => submit s
     | OComplete =>
         match c_jobs s with
         | [] => log s h [] "none"
-        | JSame i :: rest =>
-            let (h1, r) := body mode RFUEL h i in
-            match r with
-            | ROk => log s (finish_ok (set_flags h1 i false false)) rest "done"
-            | _ => log s (set_flags h1 i false true) rest "done"
-            end
-        | JPick i sd :: rest =>
-            let (h1, c1) := restore h sd in
-            let (h2, r) := body mode RFUEL h1 c1 in
-            match r with
-            | ROk =>
-                if is_comp (n_kind (nd h2 i)) then
-                  match dump DFUEL h2 c1 with
-                  | Some sd2 => let (h3, c2) := restore h2 sd2 in
-                                log s (finish_ok (merge_remote mode (set_flags h3 i false false) i c2)) rest "done"
-                  | None => log s (set_flags h2 i false true) rest "done"
-                  end
-                else
-                  let v := match chans_of h2 c1 POut with c :: _ => match c_val (ch h2 c) with Some v => v | None => 0%Z end
-                                                     | [] => 0%Z end in
-                  log s (finish_ok (set_outputs (set_flags h2 i false false) i v)) rest "done"
-            | _ => log s (set_flags h2 i false true) rest "done"
-            end
+        | j :: rest =>
+            let (h1, ok) := complete_job h j in
+            log s (if ok then finish_ok h1 else h1) rest "done"
         end
     end.
 
@@ -688,11 +731,23 @@ Fixpoint insert_t (x : string * string * string) (l : list (string * string * st
   match l with [] => [x] | y :: r => if triple_leb x y then x :: l else y :: insert_t x r end.
 Definition sort_t (l : list (string * string * string)) := fold_right insert_t [] l.
 
+(* the children a shipped composite had BEFORE the run: afterwards they must not claim it any more *)
+Definition orphan_obs (h0 h1 : heap) (ip : nat * string) : list obs :=
+  let (i, path) := ip in
+  if crosses (n_exec (nd h0 i)) && is_comp (n_kind (nd h0 i))
+  then [OL [OS path; OL (map (fun k => OL [OS (n_label (nd h0 k));
+                                            ob (match n_parent (nd h1 k) with None => true | Some _ => false end);
+                                            ob (match n_detached (nd h1 k) with None => true | Some _ => false end)])
+                              (n_children (nd h0 i)))]]
+  else [].
+
 Definition flow_obs (mode : mmode) (h : heap) (root : nat) (probe : bool) : obs :=
   let path := "/" +++ n_label (nd h root) in
-  let pr := if probe then sort_t (flat_map (probes_of h) (out_nodes 8 h root path)) else [] in
+  let outs := out_nodes 8 h root path in
+  let pr := if probe then sort_t (flat_map (probes_of h) outs) else [] in
   let (h1, _) := run_node mode RFUEL h root in
-  OL [render h1 root; OL (map (fun t => match t with (a, b, c) => OL [OS a; OS b; OS c] end) pr)].
+  OL [render h1 root; OL (map (fun t => match t with (a, b, c) => OL [OS a; OS b; OS c] end) pr);
+      OL (flat_map (orphan_obs h h1) outs)].
 
 Definition cycle_obs (mode : mmode) (h : heap) (root X : nat) (ops : list op) : obs :=
   let s := run_ops mode X h ops in
